@@ -114,6 +114,12 @@ def scenarios(tier):
                    "files": {"empty": "", "ports": "# services\n22\n\n80-81\n", "excl": "10.9.3.0/31\n"},
                    "inject": [{"bytes": tcp_reply(a(2), 22, 0x14), "afterProbe": 1, "delayMs": 40}, {"bytes": tcp_reply(a(1), 80, 0x14), "afterProbe": 1, "delayMs": 50}],
                    "expect": packet_expect(scan, target(net30, 30, [rng(22, 22), rng(80, 81)], exclude=[{"ip": net30, "len": 31}]), [[rng(22, 22), rng(80, 81)]], [6], 400)})
+    # 3". partially overlapping port ranges: the ports in the overlap are probed once per range that names them (the filter is built from
+    # the same ranges first; it must leave them as they are)
+    ov = [rng(20, 23), rng(22, 26)]
+    sc.append({"name": "tcp-overlapping-ranges", "args": ["tcp", "fin", "--json", "-p", "20-23,22-26"] + COMMON + ["--exit-delay", "400ms", "10.9.3.1"], "files": {"empty": ""},
+               "inject": [{"bytes": tcp_reply(a(1), 25, 0x14), "afterProbe": 1, "delayMs": 40}, {"bytes": tcp_reply(a(1), 27, 0x14), "afterProbe": 1, "delayMs": 50}],
+               "expect": packet_expect("tcpfin", target(a(1), 32, ov), [ov], [9], 400)})
     # 4. more than 200 port ranges: two engine runs, each with its own filter and its own exit delay
     ports = list(range(1000, 1201))
     chunk1, chunk2 = [rng(p, p) for p in ports[:200]], [rng(p, p) for p in ports[200:]]
@@ -557,6 +563,9 @@ def scanrun_validate(ctx, pid, label="scanrun"):
             continue
         keys = [(tuple(p["ip"]), p["port"]) for p in x["target"]["pairs"]]
         if len(keys) != len(set(keys)) or x["dstmacs"]:          # multiplicities / error-replaced probes are C01's and C11's business
+            continue
+        rs = sorted((r["lo"], r["hi"]) for r in x["target"]["ranges"])
+        if any(rs[i][1] >= rs[i + 1][0] for i in range(len(rs) - 1)):   # overlapping port ranges: probes repeat by design
             continue
         runs.append(e)
 
